@@ -259,6 +259,9 @@ class Emitter:
         # R17 (opt-in per proof, @define VERIF_SCOPE_DTORS): destructor calls for named block-scope locals of class type
         self.scope_dtors = '-DVERIF_SCOPE_DTORS' in getattr(tu, 'cmd', [])
         self.scopes = []
+        # R13b (opt-in per proof, @define VERIF_EXCEPTIONS): try/catch and throw at statement granularity
+        self.exc = '-DVERIF_EXCEPTIONS' in getattr(tu, 'cmd', [])
+        self.try_stack = []; self.caught_stack = []; self.tryn = 0; self.ret_default = 'return;'
 
     def fire(self, r): self.rules[r] = self.rules.get(r, 0) + 1
     def kids(self, n): return [c for c in n.get('inner', []) if c.get('kind') != 'FullComment']
@@ -281,7 +284,24 @@ class Emitter:
         k = n['kind']
         f = getattr(self, 's_' + k, None)
         if f: return f(n, ind)
-        return self.line(n, ind) + ind + self.e(n) + ';\n'
+        return self.line(n, ind) + ind + self.e(n) + ';\n' + self.exc_exit(n, ind)
+
+    CALLISH = ('CallExpr', 'CXXMemberCallExpr', 'CXXOperatorCallExpr', 'CXXConstructExpr', 'CXXTemporaryObjectExpr', 'CXXNewExpr', 'CXXDeleteExpr', 'CXXThrowExpr')
+    def has_call(self, n):
+        if n.get('kind') in self.CALLISH: return True
+        return any(self.has_call(c) for c in n.get('inner', []) if isinstance(c, dict))
+
+    def propagate(self, ind):
+        """leave the function with the exception in flight: destructors of live named locals (R17), then return"""
+        live = [sc for sc in self.live_scopes() if sc['locals']] if self.scope_dtors else []
+        return '{ ' + self.dtor_calls(live, '').replace('\n', ' ') + self.ret_default + ' }'
+
+    def exc_exit(self, n, ind):
+        """R13b: after a statement that contains a call: an exception in flight goes to the innermost handler or leaves the function"""
+        if not self.exc or n is None or not self.has_call(n): return ''
+        self.fire('R13b exception check after a statement with calls')
+        if self.try_stack: return ind + 'if (verif_exc) goto %s;\n' % self.try_stack[-1]
+        return ind + 'if (verif_exc) %s\n' % self.propagate(ind)
 
     def s_CompoundStmt(self, n, ind):
         return self.block(n, ind)
@@ -326,6 +346,12 @@ class Emitter:
         return out
 
     def s_DeclStmt(self, n, ind):
+        out = self._s_DeclStmt(n, ind)
+        chk = self.exc_exit(n, ind)
+        if chk and not out.endswith(chk): out += chk
+        return out
+
+    def _s_DeclStmt(self, n, ind):
         out = self.line(n, ind)
         for v in self.kids(n):
             if v['kind'] == 'EnumDecl':
@@ -353,11 +379,17 @@ class Emitter:
             if init and init[0]['kind'] == 'CXXConstructExpr' and not self.class_of(init[0]['type']):
                 init = []      # e.g. va_list: default-initialised aggregate of a system type
             out += ind + st + self.decl(t, v['name']) + ((' = ' + self.e(init[0])) if init else '') + ';\n'
-        return out
+        return out + self.exc_exit(n, ind)
 
     def s_IfStmt(self, n, ind):
         c = self.kids(n)
         if n.get('hasVar') or n.get('hasInit'): raise Unsupported('if with declaration')
+        if self.exc and self.has_call(c[0]):
+            self.tmpn += 1; v = 'verif_c%d' % self.tmpn
+            out = self.line(n, ind) + ind + '{ _Bool %s = (%s) != 0;\n' % (v, self.e(c[0])) + self.exc_exit(c[0], ind + '  ')
+            out += ind + '  if (' + v + ')\n' + self.body(c[1], ind + '  ')
+            if len(c) > 2: out += ind + '  else\n' + self.body(c[2], ind + '  ')
+            return out + ind + '}\n'
         out = self.line(n, ind) + ind + 'if (' + self.e(c[0]) + ')\n' + self.body(c[1], ind)
         if len(c) > 2: out += ind + 'else\n' + self.body(c[2], ind)
         return out
@@ -367,10 +399,12 @@ class Emitter:
 
     def s_WhileStmt(self, n, ind):
         c = self.kids(n); m = self.loopmark(); k = self.loops - 1
+        if self.exc and self.has_call(c[0]): raise Unsupported('call in a loop condition under VERIF_EXCEPTIONS')
         return self.line(n, ind) + ind + '/*@BEFORELOOP %d@*/\n' % k + ind + 'while (' + self.e(c[0]) + ') ' + m + '\n' + self.body(c[1], ind, k) + ind + '/*@AFTERLOOP %d@*/\n' % k
 
     def s_DoStmt(self, n, ind):
         c = self.kids(n); m = self.loopmark(); k = self.loops - 1
+        if self.exc and self.has_call(c[1]): raise Unsupported('call in a loop condition under VERIF_EXCEPTIONS')
         return self.line(n, ind) + ind + '/*@BEFORELOOP %d@*/\n' % k + ind + 'do ' + m + '\n' + self.body(c[0], ind, k) + ind + 'while (' + self.e(c[1]) + ');\n' + ind + '/*@AFTERLOOP %d@*/\n' % k
 
     def s_ForStmt(self, n, ind):
@@ -407,6 +441,8 @@ class Emitter:
                 return self.line(n, ind) + ind + '{\n' + ind + '  void *verif_rv = (void *)' + self.addr(c[0]) + ';\n' + d + ind + '  return verif_rv;\n' + ind + '}\n'
             return self.line(n, ind) + ind + '{\n' + ind + '  ' + self.decl(c[0]['type'], 'verif_rv') + ' = ' + self.e(c[0]) + ';\n' + d + ind + '  return verif_rv;\n' + ind + '}\n'
         if not c: return self.line(n, ind) + ind + 'return;\n'
+        if self.exc and self.has_call(c[0]) and not self.ret_slot and not self.ret_ref:
+            return self.line(n, ind) + ind + '{\n' + ind + '  ' + self.decl(c[0]['type'], 'verif_rv') + ' = ' + self.e(c[0]) + ';\n' + self.exc_exit(c[0], ind + '  ') + ind + '  return verif_rv;\n' + ind + '}\n'
         if self.ret_slot:
             self.fire('R11 by-value class return -> out-parameter')
             x = self.strip_wrappers(c[0])
@@ -433,7 +469,44 @@ class Emitter:
     def s_DefaultStmt(self, n, ind):
         c = self.kids(n)
         return ind + 'default:\n' + self.s(c[-1], ind + '  ')
-    def s_CXXTryStmt(self, n, ind): raise Unsupported('try/catch has no rule')
+    def s_CXXTryStmt(self, n, ind):
+        if not self.exc: raise Unsupported('try/catch has no rule')
+        self.fire('R13b try/catch -> handler labels')
+        c = self.kids(n)
+        k = self.tryn; self.tryn += 1
+        lc, le, cv = 'verif_catch%d' % k, 'verif_endtry%d' % k, 'verif_caught%d' % k
+        out = self.line(n, ind) + ind + '{\n'
+        self.try_stack.append(lc)
+        out += self.block(c[0], ind + '  ')
+        self.try_stack.pop()
+        out += ind + '  goto %s;\n' % le + ind + '  %s: ;\n' % lc
+        out += ind + '  { int %s = verif_exc; verif_exc = 0;\n' % cv
+        first = True; catch_all = False
+        self.caught_stack.append(cv)
+        for h in c[1:]:
+            if h['kind'] != 'CXXCatchStmt': raise Unsupported('try child ' + h['kind'])
+            hk = self.kids(h)
+            var = hk[0] if hk and hk[0].get('kind') == 'VarDecl' else None
+            body = hk[-1]
+            pre = ''
+            if var is None:
+                cond = None; catch_all = True
+            else:
+                q = var['type']['qualType']
+                if 'CppUTestFailedException' in q: cond = '%s == VERIF_EXC_CppUTestFailedException' % cv
+                elif 'std::exception' in q: cond = '%s == VERIF_EXC_std' % cv
+                else: raise Unsupported('catch of ' + q)
+                if var.get('name'):
+                    pre = ind + '      static struct verif_std_exception verif_eobj%d; const struct verif_std_exception *%s = &verif_eobj%d;\n' % (k, var['name'], k)
+            head = ('if (%s)' % cond) if cond else ''
+            out += ind + '    ' + ('' if first else 'else ') + head + '\n' + ind + '    {\n' + pre + self.block(body, ind + '      ') + ind + '    }\n'
+            first = False
+            if catch_all: break
+        self.caught_stack.pop()
+        if not catch_all:
+            out += ind + '    else { verif_exc = %s; %s }\n' % (cv, ('goto %s;' % self.try_stack[-1]) if self.try_stack else self.propagate(ind))
+        out += ind + '  }\n' + ind + '  %s: ;\n' % le + ind + '}\n'
+        return out
     def s_LabelStmt(self, n, ind):
         return ind + n['name'] + ':\n' + self.s(self.kids(n)[0], ind)
     def s_GotoStmt(self, n, ind):
@@ -743,6 +816,13 @@ class Emitter:
                 name = d['name']
             self.calls.add(name)
             return name, self.bind_args(d, ps, c[1:])
+        if fx['kind'] == 'MemberExpr':
+            md = self.tu.byid.get(fx.get('referencedMemberDecl'))
+            if md is not None and md.get('kind') == 'CXXMethodDecl' and is_static_method(self.tu, md):
+                # static member function called through an object expression (obj->f()): the object is not an argument
+                self.fire('R3 member call -> free function')
+                name = self.namer.cname(md); self.calls.add(name)
+                return name, self.bind_args(md, split_params(md['type']['qualType']), c[1:])
         # call through a function pointer expression
         fexpr = self.e(c[0])
         t = c[0]['type']['qualType']
@@ -831,6 +911,15 @@ class Emitter:
             d = '%s((struct %s *)%s); ' % (nm, cq, v)
         return '({ void *%s = (void *)(%s); if (%s) { %sVERIF_operator_delete(%s); } })' % (v, self.e(c), v, d, v)
     def e_CXXThrowExpr(self, n):
+        if self.exc:
+            c = self.kids(n)
+            self.fire('R13b throw -> exception in flight')
+            if not c:
+                if not self.caught_stack: raise Unsupported('rethrow outside a handler')
+                return '(verif_exc = %s)' % self.caught_stack[-1]
+            t = self.class_of(c[0]['type']) or c[0]['type'].get('qualType', '')
+            kind = 'VERIF_EXC_CppUTestFailedException' if 'CppUTestFailedException' in t else ('VERIF_EXC_std' if ('bad_alloc' in t or 'std::' in t) else 'VERIF_EXC_foreign')
+            return '(verif_exc = %s)' % kind
         self.fire('R13 throw -> VERIF_throw'); self.calls.add('VERIF_throw')
         c = self.kids(n)
         t = self.class_of(c[0]['type']) if c else None
@@ -848,6 +937,10 @@ def emit_function(tu, namer, prelude, f):
     proto, ret_slot, ret_class = prelude.prototype(f, cname)
     em.ret_slot = ret_slot; em.ret_class = ret_class; em.ret_ref = f.get('_ret_ref', False)
     em.cur = cname
+    rt = f['type']['qualType'].split('(')[0].strip()
+    if f['kind'] in ('CXXConstructorDecl', 'CXXDestructorDecl') or rt == 'void': em.ret_default = 'return;'
+    elif ret_slot: em.ret_default = 'return %s;' % ret_slot
+    else: em.ret_default = 'return 0;'
     body = [c for c in f['inner'] if c.get('kind') in ('CompoundStmt', 'CXXTryStmt')][0]
     if body['kind'] == 'CXXTryStmt': raise Unsupported('function try block')
     pre = ''
@@ -925,7 +1018,7 @@ def em_ctor_init(em, f, ini):
 
 
 # ----------------------------------------------------------------------------------------------
-BUILTIN_WORDS = set('__va_list_tag const volatile unsigned signed char short int long float double void _Bool bool struct union enum restrict __restrict'.split())
+BUILTIN_WORDS = set('verif_std_exception __va_list_tag const volatile unsigned signed char short int long float double void _Bool bool struct union enum restrict __restrict'.split())
 
 class Prelude:
     """types, records (R7), enums, typedefs, globals (R14), prototypes"""
@@ -981,6 +1074,7 @@ class Prelude:
         q = re.sub(r'\b(class|struct|enum|union)\s+(?=(%s)\b)' % '|'.join(sorted(self.known_tags, key=len, reverse=True)), '', q) if self.known_tags else q
         q = re.sub(r'\bclass\s+', 'struct ', q)
         q = q.replace('std__nullptr_t', 'void *')
+        q = re.sub(r'\bstd__exception\b', 'struct verif_std_exception', q)      # R13b: opaque stand-in for the caught object
         q = re.sub(r'\s*noexcept(\([a-z]*\))?', '', q)
         q = re.sub(r'\b__va_list_tag \*', 'va_list ', q)
         return q
@@ -1043,6 +1137,11 @@ class Prelude:
             rett = 'void'
         else:
             rc = self.class_of(ret)
+            if not rc and ret in self.tdnames:
+                # R11b: return type named through a typedef of a record (`MockValue_c f()`): the call sites see the desugared
+                # record type and pass the out-parameter, so the prototype must take it too
+                for td in self.tu.typedefs:
+                    if td['name'] == ret: rc = self.class_of(td['type']); break
             if rc and not ret.rstrip().endswith(('*', '&')):
                 ret_slot = 'verif_ret'; ret_class = rc
                 rett = 'struct %s *' % rc
@@ -1277,6 +1376,12 @@ C_PRELUDE = '''#include <stddef.h>
 #include <math.h>
 void *VERIF_operator_new(size_t);
 void VERIF_throw(const char *);
+/* R13b (opt-in VERIF_EXCEPTIONS): the exception in flight, 0 = none */
+#define VERIF_EXC_CppUTestFailedException 1
+#define VERIF_EXC_std 2
+#define VERIF_EXC_foreign 3
+struct verif_std_exception { int verif_dummy; };
+int verif_exc;
 '''
 
 class Unit:
